@@ -70,6 +70,15 @@ func encodeFmtToks(toks hclwrite.Tokens) string {
 	return sb.String()
 }
 
+type heldResult struct {
+	src  string
+	out  []byte
+	copy string
+}
+
+// heldResults: the last few Format results, kept to see whether a later call disturbs them
+var heldResults []heldResult
+
 // c09Oracle checks the property on the real formatter for one error-free source. It returns whether
 // the case was non-trivial (formatting changed the text).
 func c09Oracle(cx *lib.Ctx, src []byte, origin string) bool {
@@ -82,6 +91,19 @@ func c09Oracle(cx *lib.Ctx, src []byte, origin string) bool {
 	cx.Guard("format", string(src), func() {
 		out := hclwrite.Format(src)
 		nontrivial = !bytes.Equal(out, src)
+		// results of earlier calls must stay what they were (a result is the caller's to keep)
+		for _, h := range heldResults {
+			if string(h.out) != h.copy {
+				cx.Res.Fail(lib.Failure{Kind: "oracle", Key: "earlier-result-changed-by-later-call", Desc: "the slice returned by an earlier Format call changed its content after a later Format call (" + origin + ")",
+					Input: h.src + "\n---- then ----\n" + string(src), Impl: "earlier result was:\n" + h.copy + "\nand is now:\n" + string(h.out)})
+				heldResults = nil
+				break
+			}
+		}
+		if len(heldResults) >= 8 {
+			heldResults = heldResults[1:]
+		}
+		heldResults = append(heldResults, heldResult{src: string(src), out: out, copy: string(out)})
 		if k, differ := lib.DiffKey(lib.LexSeq(src), lib.LexSeq(out)); differ {
 			cx.Res.Fail(lib.Failure{Kind: "oracle", Key: "tokens-changed:" + k, Desc: "formatting changed the token sequence (" + origin + ")", Input: string(src), Impl: string(out)})
 			return
@@ -202,6 +224,7 @@ func runC09(cx *lib.Ctx) {
 		}
 	}
 	c09Windows(cx)
+	c09Tool(cx)
 }
 
 // c09Windows enumerates short windows of representative tokens, embeds each in several expression
